@@ -40,6 +40,7 @@ type C02Plan struct {
 	Sweep    string        `json:"sweep,omitempty"` // "flips+truncs": exhaustive over the payload region of a small file
 	Damage   *Damage       `json:"damage,omitempty"`
 	Seq      []ChunkOp     `json:"seq,omitempty"`
+	Prefix   int           `json:"prefix,omitempty"` // with-key sequences: this many honest full chunks come first (counters of the sequence are offset by it)
 	Rearmor  bool          `json:"rearmor,omitempty"` // carry the damaged binary through canonical armor
 	Delivery seam.Delivery `json:"delivery"`
 	Reads    lib.ReadSched `json:"reads"`
@@ -60,7 +61,7 @@ func (C02) Runs(tier string) int {
 func (C02) Meta() core.Meta {
 	return core.Meta{
 		Level: "fault_enumeration",
-		Rule: "a case = (file, one storage fault or writer-crash point or with-key chunk sequence, delivery schedule, read schedule); every damaged image is read under the plan's schedule plus unbuffered data-with-EOF and byte-at-a-time. Sweep runs enumerate every bit flip and every truncation length of the payload region (nonce and chunks) of a small file; sampled runs damage multi-chunk files near chunk boundaries (flip, insert, delete, extend, drop/dup/swap/move/misdirect a chunk write) or build a with-key sequence of up to 5 chunk variants (other counter, other final flag, short, empty, split in two, sealed under a foreign key). Non-trivial = image differs from the honest file; distinct = distinct (file skeleton, damage, delivery).",
+		Rule: "a case = (file, one storage fault or writer-crash point or with-key chunk sequence, delivery schedule, read schedule); every damaged image is read under the plan's schedule plus unbuffered data-with-EOF and byte-at-a-time. Sweep runs enumerate every bit flip and every truncation length of the payload region (nonce and chunks) of a small file; sampled runs damage multi-chunk files near chunk boundaries (flip, insert, delete, extend, drop/dup/swap/move/misdirect a chunk write) or build a with-key sequence of up to 5 chunk variants (one run per batch puts such a tail behind 255..257 honest chunks, 16 MiB) (other counter, other final flag, short, empty, split in two, sealed under a foreign key). Non-trivial = image differs from the honest file; distinct = distinct (file skeleton, damage, delivery).",
 		Assumptions: []string{
 			"ChaCha20-Poly1305, HKDF and the reference STREAM model are the trusted base",
 			"with-key sequences: accepted with a clean end => image is byte for byte the canonical encoding of the released plaintext (one chunking per plaintext); a (key, nonce) pair reused across different plaintexts is not a generated fault",
@@ -68,7 +69,7 @@ func (C02) Meta() core.Meta {
 		Real:       []string{"filippo.io/age Decrypt", "internal/stream Reader", "internal/format Parse", "armor Reader (rearmor runs)"},
 		Stub:       []string{"ciphertext source (SimSource) and its delivery schedule", "storage image (damaged copy of what SimDisk recorded)", "crypto/rand.Reader (tape)", "byzantine writer (reference model with the file key)"},
 		FaultKinds: []string{"fault.trunc", "fault.flip", "fault.insert", "fault.delete", "fault.extend", "fault.drop", "fault.dup", "fault.swap", "fault.move", "fault.misdirect", "fault.byzantine_seq"},
-		Probes:     []string{"probe.full_final_chunk", "probe.full_final_plus_trailing", "probe.error_from_Decrypt", "probe.error_after_release", "probe.byz_accepted_canonical", "probe.byz_rejected", "probe.trivial_same_image", "probe.empty_final_after_full", "probe.read_with_1MiB_buffer"},
+		Probes:     []string{"probe.full_final_chunk", "probe.full_final_plus_trailing", "probe.error_from_Decrypt", "probe.error_after_release", "probe.byz_accepted_canonical", "probe.byz_rejected", "probe.trivial_same_image", "probe.empty_final_after_full", "probe.read_with_1MiB_buffer", "probe.byz_behind_255_to_257_chunks"},
 	}
 }
 
@@ -89,6 +90,24 @@ func (C02) Generate(r *core.RNG, tier string, idx uint64) interface{} {
 		}
 		p.File.PLen = r.Intn(max + 1)
 		p.Rearmor = false
+	case idx%2000 == 44:
+		// a with-key tail behind 255..257 honest chunks: the empty-final and counter rules at counters whose low byte is 0 or 255
+		p.File.Recips = []lib.Recip{{Key: &world.Key{T: "x", K: r.Intn(world.NX25519)}}}
+		p.File.PLen = 65536
+		p.Prefix = r.Pick(255, 256, 256, 257)
+		switch r.Intn(4) {
+		case 0:
+			p.Seq = []ChunkOp{{Src: -1, Ctr: 0, Final: true}} // empty final chunk right after the prefix
+		case 1:
+			p.Seq = []ChunkOp{{Src: 0, Ctr: 0, Final: true}}
+		case 2:
+			p.Seq = []ChunkOp{{Src: 0, Ctr: 0, Final: false}, {Src: -1, Ctr: 1, Final: true}}
+		default:
+			p.Seq = []ChunkOp{{Src: 0, Cut: 100, Ctr: 0 - p.Prefix, Final: true}} // counter wrapped back to 0
+		}
+		p.Rearmor = false
+		p.Delivery = seam.Delivery{Mode: "whole"}
+		p.Reads = lib.ReadSched{Mode: "all"}
 	case idx%20 < 8:
 		// byzantine with-key sequence
 		p.File.Recips = []lib.Recip{{Key: &world.Key{T: "x", K: r.Intn(world.NX25519)}}}
@@ -363,6 +382,9 @@ func (e C02) Execute(plan interface{}, c *core.Ctx) *core.Verdict {
 	P := spec.Plain()
 	ids := []age.Identity{world.Identity(key)}
 	deliveries := []seam.Delivery{p.Delivery, {Mode: "whole", EOFWith: true}, {Mode: "one"}}
+	if p.Prefix > 0 {
+		deliveries = deliveries[:2] // 16 MiB images: byte-at-a-time delivery is left out
+	}
 	if len(l.Payload) == ref.EncChunk*l.NChunks {
 		c.Stats.Inc("probe.full_final_chunk")
 	}
@@ -485,6 +507,14 @@ func (e C02) Execute(plan interface{}, c *core.Ctx) *core.Verdict {
 		var S []byte
 		var payload []byte
 		foreign := false
+		if p.Prefix > 0 {
+			pre := core.Pattern(spec.PSeed+1, p.Prefix*65536)
+			for i := 0; i < p.Prefix; i++ {
+				payload = append(payload, ref.SealChunk(l.StreamKey, uint64(i), false, pre[i*65536:(i+1)*65536])...)
+			}
+			S = append(S, pre...)
+			c.Stats.Inc("probe.byz_behind_255_to_257_chunks")
+		}
 		for _, op := range p.Seq {
 			var pt []byte
 			if op.Src >= 0 && op.Src < len(pchunks) {
@@ -502,7 +532,7 @@ func (e C02) Execute(plan interface{}, c *core.Ctx) *core.Verdict {
 				foreign = true
 			}
 			S = append(S, pt...)
-			payload = append(payload, ref.SealChunk(key, uint64(op.Ctr), op.Final, pt)...)
+			payload = append(payload, ref.SealChunk(key, uint64(op.Ctr+p.Prefix), op.Final, pt)...)
 		}
 		img := append(append([]byte(nil), F[:l.HeaderLen+16]...), payload...)
 		c.Stats.Inc("fault.byzantine_seq")
